@@ -135,7 +135,7 @@ def transmit(rng, parent_haps, nvar, recomb_prob):
     return alleles, srcs
 
 
-def read_from_haplotype(refseq, variants, hap_alleles, a, b):
+def read_from_haplotype(refseq, variants, hap_alleles, a, b, edge_ins=False):
     """Exact copy of the haplotype over reference interval [a,b): returns (sequence, cigartuples) or None when an
     end falls where a valid CIGAR cannot start/end (inside or adjacent to an indel carried by the haplotype)."""
     seq = []
@@ -168,9 +168,19 @@ def read_from_haplotype(refseq, variants, hap_alleles, a, b):
             pos = e
         elif v.kind == "ins":
             # inserted bases sit between anchor (v.pos) and v.pos+1
-            if v.pos < a:  # read starts right after the anchor: no insertion
+            if v.pos < a:  # read starts right after the anchor
+                if edge_ins and v.pos == a - 1 and not seq:
+                    seq.append(v.alt[1:])  # the alignment begins with the inserted bases (leading I)
+                    add(1, len(v.alt) - 1)
                 continue
             if v.pos >= b - 1:
+                if edge_ins and v.pos == b - 1:
+                    seq.append(refseq[pos : v.pos + 1])
+                    add(0, v.pos + 1 - pos)
+                    seq.append(v.alt[1:])  # the alignment ends right behind the inserted bases (trailing I)
+                    add(1, len(v.alt) - 1)
+                    pos = b
+                    continue
                 return None  # read would end with the anchor; ambiguous whether the insertion follows
             seq.append(refseq[pos : v.pos + 1])
             add(0, v.pos + 1 - pos)
@@ -187,7 +197,7 @@ def read_from_haplotype(refseq, variants, hap_alleles, a, b):
     if pos < b:
         seq.append(refseq[pos:b])
         add(0, b - pos)
-    if not cig or cig[0][0] != 0 or cig[-1][0] != 0:
+    if not cig or (cig[0][0] != 0 and not edge_ins) or (cig[-1][0] != 0 and not edge_ins) or cig[0][0] == 2 or cig[-1][0] == 2:
         return None
     return "".join(seq), cig
 
@@ -356,7 +366,7 @@ def simulate(rng, tmp, p):
                     if end_policy == "clean" and any(lo <= x < hi or lo <= y - 1 < hi for lo, hi in multi):
                         ok = False
                         break
-                    r = read_from_haplotype(refseq, vs, sim.haps[c][s][h], x, y)
+                    r = read_from_haplotype(refseq, vs, sim.haps[c][s][h], x, y, edge_ins=rng.random() < p.get("edge_ins", 0.0))
                     if r is None:
                         ok = False
                         break
